@@ -377,9 +377,10 @@ def run_bank(inp):
         p = np.clip(np.round(c + r.uniform(-0.3, 0.3, 3) * n), 1, n - 2).astype(int)
         T[tuple(p)] += r.uniform(0.5, 1.5)
     T = ndi.gaussian_filter(T, 0.7).astype(np.float32)
-    M = pick.ZNCCTemplateMatcher(T, rotation=((30, 10), (30, 10), (30, 10)))      # 7^3 = 343 rotations
+    grid = tuple(tuple(g) for g in inp["grid"]) if inp.get("grid") else ((30, 10), (30, 10), (30, 10))   # default: 7^3 = 343 rotations
+    M = pick.ZNCCTemplateMatcher(T, rotation=grid)
     quats = np.asarray(M._quaternions)
-    idxs = [int(v) for v in inp["indices"]]
+    idxs = [int(v) % len(quats) for v in inp["indices"]]
     shape = (24, 24, 16 * len(idxs) + 8)
     vol = np.zeros(shape, dtype=np.float32)
     ctrs = [(12, 12, 12 + 16 * i) for i in range(len(idxs))]
@@ -402,13 +403,13 @@ def run_bank(inp):
         pos, q = out.pos[o], out.rotator.as_quat()[o]
         if len(pos) != len(ctrs) or np.abs(pos - np.array(sorted(ctrs), dtype=float)).max() > 1e-3:
             viols.append({"clause": "planted", "input": dict(inp),
-                          "desc": f"343-rotation bank ({label}): picks {pos.tolist()} for particles {sorted(ctrs)}"})
+                          "desc": f"{len(quats)}-rotation bank ({label}): picks {pos.tolist()} for particles {sorted(ctrs)}"})
             continue
         want = quats[[idxs[ctrs.index(cc)] for cc in sorted(ctrs)]]
         ang = np.array([(Rotation.from_quat(a) * Rotation.from_quat(b).inv()).magnitude() for a, b in zip(q, want)])
         if np.degrees(ang).max() > 1.0:
             viols.append({"clause": "rotation", "input": dict(inp),
-                          "desc": f"343-rotation bank ({label}): particles planted with rotations #{idxs} are reported "
+                          "desc": f"{len(quats)}-rotation bank {grid} ({label}): particles planted with rotations #{idxs} are reported "
                                   f"{np.round(np.degrees(ang), 1).tolist()} degrees away from the planted rotation"})
     return viols
 
@@ -536,6 +537,9 @@ def oracle(rng, thorough, deep=False, hints=None):
     cases.append(dict(kind="reuse", scales=[[1.0, 0.5, 1.0], [0.5, 1.0]][int(rng.integers(0, 2))], seed=int(rng.integers(0, 10 ** 6)),
                       scale=1.0, shape=[0, 0, 0]))
     cases.append(dict(kind="bank", indices=[int(rng.integers(0, 256)), int(rng.integers(256, 343)), 342], seed=int(rng.integers(0, 10 ** 6)),
+                      scale=1.0, shape=[24, 24, 56]))
+    # a rotation grid that lists some rotations twice (+-180 degrees give q and -q): the reported rotation is still the planted one
+    cases.append(dict(kind="bank", grid=[[0, 0], [90, 90], [180, 90]], indices=[7, 13, int(rng.integers(4, 15))], seed=int(rng.integers(0, 10 ** 6)),
                       scale=1.0, shape=[24, 24, 56]))
     cases.append(dict(kind="empty", shape=[24, 20, 28], one=False, chunks=[12, 20, 9], seed=0, scale=1.0))
     cases.append(dict(kind="empty", shape=[30, 26, 28], one=True, chunks=[10, 13, 9], seed=0, scale=1.0))
